@@ -20,11 +20,12 @@ from .. import tlc
 PID = "C16"
 
 INVARIANTS = ["TypeOK", "StrongExactly", "NoHashWhileMissing", "HashWhenComplete", "FuzzyIgnoresProducedContent",
-              "FuzzyFollowsProducer", "FuzzyExactly", "BaseComplete"]
+              "FuzzyFollowsProducer", "FuzzyExactly", "BaseComplete", "SiblingExactly"]
 ACTIONS = ["ChangeExecutable", "ChangeLiteral", "ChangeOwnContent", "ChangeOwnMethod", "ChangeProducedContent",
            "ChangeUpMethod", "ChangeImage", "LiteralViaVariable", "RenameOwnFile", "RenameProducedFile",
            "RespellReference", "ChangeBackendOnly", "ChangeResources", "ChangeEnvironment", "MoveInstance",
            "RenameComponents", "RenameStages", "ShiftStages", "ChangeTime", "Replicate", "Identity",
+           "ChangeSiblingExecutable", "ChangeSiblingLiteral",
            "RemoveOwnFile", "RemoveProducedFile"]
 
 # how the opaque values of the spec are rendered
@@ -32,8 +33,26 @@ NAMES = {"plain": ("cons", "prod", "src"), "renamed": ("xx", "yy", "zz"),
          "affix": ("aba", "ba", "a"),          # every producer's name is a suffix of its consumer's name
          "affix2": ("a", "ba", "aba"),         # every consumer's name is a suffix of its producer's name
          "digits": ("cons1", "prod2", "src10"), "digitmid": ("c1ons", "p2rod", "s10rc")}
-EXE = {"e1": "cat", "e2": "ls"}
-LIT = {"l1": "-n", "l2": "-v"}
+SIBLING = {"plain": "other", "renamed": "ww", "affix": "cba", "affix2": "b", "digits": "sib3", "digitmid": "o4ther"}
+# replica-like names: (name of the deepest component c[n] -- the one that is replicated --, name of its sibling)
+#   repldigit : replicas gen10, gen11 of `gen1` next to `gen`  (digit-stripped name of the blueprint is another component)
+#   repldigit2: replicas gen120, gen121 of `gen12` next to `gen1` (a partly stripped name is another component)
+#   replsib   : replicas gen0, gen1 of `gen` next to `gen7`     (a component that looks like a replica of another)
+REPLICA_LIKE = {"repldigit": ("gen1", "gen"), "repldigit2": ("gen12", "gen1"), "replsib": ("gen", "gen7")}
+
+
+def names_of(w):
+    """-> (names of c[1..n] ..., name of the sibling)"""
+    scheme, n = w["where"]["scheme"], w["n"]
+    if scheme in REPLICA_LIKE:
+        chain = list(NAMES["plain"])
+        chain[n - 1] = REPLICA_LIKE[scheme][0]
+        return tuple(chain), REPLICA_LIKE[scheme][1]
+    return NAMES[scheme], SIBLING[scheme]
+
+
+EXE = {"e1": "cat", "e2": "ls", "e3": "sort", "e4": "wc"}
+LIT = {"l1": "-n", "l2": "-v", "l3": "-r", "l4": "-u"}
 # renamed files get names of a different length: the code orders references by the length of their string
 FNAME = {"f1": "f1", "f2": "f2", "o1": "o1", "g1": "a_much_longer_file_name_g1", "g2": "another_quite_long_name_g2"}
 IMG = {"img1": "registry.example.com/tools/img:1", "img2": "registry.example.com/tools/img:2"}
@@ -41,12 +60,13 @@ IMG = {"img1": "registry.example.com/tools/img:1", "img2": "registry.example.com
 TIERS = {
     "quick": dict(MaxChain=3, OwnShapes=["none", "input-ref", "data-copy", "appdep-ref"],
                   UpShapes=["pfile-ref", "pfile-copy", "pdir-ref"], Up2Shapes=["pfile-ref", "pdir-ref"],
-                  ImageShapes=["local", "k8s-img1"], MaxFeatures=1, nproc=4),
+                  ImageShapes=["local", "k8s-img1"], MaxFeatures=1, NamingChain=2, nproc=6),
     "thorough": dict(MaxChain=3, OwnShapes=["none", "input-ref", "input-copy", "data-ref", "data-copy", "appdep-ref", "appdep-link"],
                      UpShapes=["pfile-ref", "pfile-copy", "pfile-output", "pdir-ref"], Up2Shapes=["pfile-ref", "pdir-ref"],
-                     ImageShapes=["local", "lsf-img1", "k8s-img1"], MaxFeatures=2, nproc=8),
+                     ImageShapes=["local", "lsf-img1", "k8s-img1"], MaxFeatures=2, NamingChain=3, nproc=8),
 }
-SCHEMES = ["plain", "renamed", "affix", "affix2", "digits", "digitmid"]
+SCHEMES = ["plain", "renamed", "affix", "affix2", "digits", "digitmid", "repldigit", "repldigit2", "replsib"]
+NAMING = ["repldigit", "repldigit2", "replsib"]
 
 
 def _set(xs):
@@ -55,9 +75,9 @@ def _set(xs):
 
 def write_cfg(path, t, emit, invariants):
     body = "CONSTANTS\n  MaxChain = %d\n  OwnShapes = %s\n  UpShapes = %s\n  Up2Shapes = %s\n  ImageShapes = %s\n" \
-           "  MaxFeatures = %d\n  Schemes = %s\n  Emit = %s\nSPECIFICATION Spec\n" % (
+           "  MaxFeatures = %d\n  Schemes = %s\n  NamingSchemes = %s\n  NamingChain = %d\n  Emit = %s\nSPECIFICATION Spec\n" % (
                t["MaxChain"], _set(t["OwnShapes"]), _set(t["UpShapes"]), _set(t["Up2Shapes"]), _set(t["ImageShapes"]),
-               t["MaxFeatures"], _set(SCHEMES), "TRUE" if emit else "FALSE")
+               t["MaxFeatures"], _set(SCHEMES), _set(NAMING), t["NamingChain"], "TRUE" if emit else "FALSE")
     body += "".join("INVARIANT %s\n" % i for i in invariants) + "CHECK_DEADLOCK FALSE\n"
     tmp = "%s.%d.tmp" % (path, os.getpid())          # atomic: a concurrent run of the same tier may be reading it
     with open(tmp, "w") as f:
@@ -87,7 +107,7 @@ def file_rel(kind, fname, i):
 
 
 def render(w, appdir):
-    names = NAMES[w["where"]["scheme"]]
+    names, sibname = names_of(w)
     n = w["n"]
     comps, envs = [], {}
     if w["where"]["shift"]:
@@ -132,6 +152,9 @@ def render(w, appdir):
         if w["where"]["replicated"] and i == n:
             comp["workflowAttributes"] = {"replicate": 2}
         comps.append(comp)
+    if w["sib"]["present"]:
+        comps.append({"name": sibname, "stage": stage_of(w, n),
+                      "command": {"executable": EXE[w["sib"]["exe"]], "arguments": LIT[w["sib"]["lit"]]}})
     nstages = max(c["stage"] for c in comps) + 1
     doc = {"components": comps, "environments": {"default": envs},
            "variables": {"default": {"stages": {k: {"stage-name": "%s%d" % (w["where"]["stageNames"], k)} for k in range(nstages)}}}}
@@ -177,8 +200,11 @@ class Built:
         self.exp = realenv.experiment_from_flowir(self.doc, loc, inputs=inputs, extra_files=extra, validate=True)
         inst = self.exp.instanceDirectory.location
         t = 1_000_000_000 + 86400 * 365 * w["where"]["time"]
-        names = NAMES[w["where"]["scheme"]]
+        names, sibname = names_of(w)
         self.nodes = {}
+        self.sibnode = "stage%d.%s" % (stage_of(w, n), sibname) if w["sib"]["present"] else None
+        if self.sibnode and self.sibnode not in self.exp.graph.nodes:
+            raise MachineryError("rendered world has no node %s (nodes: %s)" % (self.sibnode, sorted(self.exp.graph.nodes)))
         for i in range(1, n + 1):
             base = "stage%d.%s" % (stage_of(w, i), names[i - 1])
             if w["where"]["replicated"]:
@@ -220,7 +246,12 @@ class Built:
         for i in range(self.w["n"], 0, -1):
             for nd in self.nodes[i]:
                 self.exp.graph.nodes[nd]["componentSpecification"].memoization_reset()
-        return {i: self.hashes(i) for i in range(1, self.w["n"] + 1)}
+        out = {i: self.hashes(i) for i in range(1, self.w["n"] + 1)}
+        if self.sibnode:
+            spec = self.exp.graph.nodes[self.sibnode]["componentSpecification"]
+            spec.memoization_reset()
+            out["sib"] = [(spec.memoization_hash, spec.memoization_hash_fuzzy)]
+        return out
 
     def close(self):
         shutil.rmtree(self.dir, ignore_errors=True)
@@ -247,10 +278,16 @@ def aspect_name(pair):
 def position(pair, i):
     at = pair["asp"]["at"]
     if at == 0:
-        return "world"
-    if at == i:
-        return "self"
-    return "upstream%d" % (at - i) if at > i else "downstream"
+        pos = "world"
+    elif at == 9:
+        pos = "of-sibling"
+    elif at == i:
+        pos = "self"
+    else:
+        pos = "upstream%d" % (at - i) if at > i else "downstream"
+    if pair["a"]["sib"]["present"]:        # naming base world: the class of the input includes the naming relation
+        pos += "@" + base_class(pair["a"], i)
+    return pos
 
 
 def compare(chk, pair, ha, hb, replay):
@@ -261,9 +298,13 @@ def compare(chk, pair, ha, hb, replay):
         pos = position(pair, i)
         sa, fa = ha[i][0]
         # the base world is complete: both hashes exist, and all replicas of it agree
-        if sa is None or fa is None:
+        if any(x is None for h in ha[i] for x in h):
             chk.violation("no-hash:base:%s" % base_class(pair["a"], i),
-                          "complete world, component %d of the chain has strong=%s fuzzy=%s" % (i, sa, fa), replay)
+                          "complete world, component %d of the chain has (strong, fuzzy) = %s" % (i, ha[i]), replay)
+            continue
+        if len(set(ha[i])) > 1:
+            chk.violation("replicas-differ:base:%s" % base_class(pair["a"], i),
+                          "replicas of component %d of the chain consume equal files but have (strong, fuzzy) = %s" % (i, ha[i]), replay)
             continue
         for (sb, fb) in hb[i]:
             # --- strong
@@ -289,8 +330,25 @@ def compare(chk, pair, ha, hb, replay):
                                       asp, pair["asp"]["at"], i, fa, fb, ob["frel"]), replay)
 
 
+def compare_sibling(chk, pair, ha, hb, replay):
+    if not pair["sib"]["present"]:
+        return
+    asp = aspect_name(pair)
+    (sa, fa), (sb, fb) = ha["sib"][0], hb["sib"][0]
+    if None in (sa, fa, sb, fb):
+        chk.violation("no-hash:%s:sibling" % asp, "the sibling (no references) has hashes %s / %s" % ((sa, fa), (sb, fb)), replay)
+        return
+    for which, x, y in (("strong", sa, sb), ("fuzzy", fa, fb)):
+        if (x == y) != (pair["sib"]["rel"] == "eq"):
+            chk.violation("%s:%s:%s:sibling" % (which, "false-reuse" if x == y else "spurious-miss", asp),
+                          "aspect %s, observed the sibling of c[%d]: %s hashes %s / %s, specification says %s" % (
+                              asp, pair["a"]["n"], which, x, y, pair["sib"]["rel"]), replay)
+
+
 def base_class(w, i):
     c = w["c"][i - 1]
+    if w["sib"]["present"]:
+        return "naming=%s%s" % (w["where"]["scheme"], ",replicated" if w["where"]["replicated"] else "")
     return "own=%s-%s,up=%s-%s,%s" % (c["own"]["kind"], c["own"]["method"], c["up"]["kind"], c["up"]["method"], c["backend"])
 
 
@@ -320,6 +378,7 @@ def execute_pairs(chk, pairs, realenv):
                 continue
             hb = B.all_hashes()
             compare(chk, p, ha, hb, replay)
+            compare_sibling(chk, p, ha, hb, replay)
             chk.evaluated(("pair", key, json.dumps(p["asp"], sort_keys=True), json.dumps(p["b"], sort_keys=True)))
             chk.sample({"aspect": aspect_name(p), "at": p["asp"]["at"], "n": p["a"]["n"],
                         "a": {i: ha[i] for i in ha}, "b": {i: hb[i] for i in hb},
